@@ -41,7 +41,7 @@ theorem clamp_eq (M : F64.F64) (x : Int64) :
   unfold clamp f64OfDur durOfF64
   rw [abs_eq, sgn_eq]
 
-theorem clamp_eq' (M : F64.F64) (x : Int64) :
+theorem clamp_eq2 (M : F64.F64) (x : Int64) :
     (if (F64.gt (F64.ofInt ((absDur x)).toInt) M) then
       (Int64.ofInt (F64.toInt64 (F64.mul (F64.ofInt ((timemath_Sgn x)).toInt) M))) else x) = clamp M x := by
   unfold clamp f64OfDur durOfF64
@@ -69,7 +69,7 @@ theorem C01_leaf_correction (refOff peerOff : Int64) (M1 M2 : F64.F64) (cfg : S_
       combine (!refs.isEmpty) (peerPart M2 cfg.PeerClockCutoff (!peers.isEmpty) peerOff).2
         (clamp M1 refOff) (peerPart M2 cfg.PeerClockCutoff (!peers.isEmpty) peerOff).1 := by
   unfold sync_Run_correction peerPart
-  simp only [nonempty_eq refs hr, nonempty_eq peers hp, abs_eq, clamp_eq']
+  simp only [nonempty_eq refs hr, nonempty_eq peers hp, abs_eq, clamp_eq2]
   by_cases hc : absDur peerOff > cfg.PeerClockCutoff
   · simp only [hc, decide_true, if_true]
     cases refs.isEmpty <;> cases peers.isEmpty <;> simp [combine, timemath_Midpoint, midpoint]
